@@ -206,7 +206,7 @@ Check C09_year_acc_perm : forall A ys ys' acc,
 Print Assumptions C09_year_acc_perm.
 
 (* ---- the same loops over the raw hash order ARE order-dependent: the code
-   before commits 6cc8f20, bdf1aca, cd4c999 (two-element witnesses; the check
+   before commits 6cc8f20, e68f2a5, 2c6afef (two-element witnesses; the check
    runs inputs of these shapes repeatedly against the real binary) ---- *)
 Theorem C09_split_expansion_unsorted_refuted :
   exists order order' : list N, Permutation order order' /\
